@@ -269,7 +269,11 @@ impl BasicLexer {
                     if !is_basic_digit(pk) {
                         exp = false;
                         s.pop();
+                        if ch == 'D' {
+                            digits -= 8;
+                        }
                         self.chars.push_front(ch);
+                        break;
                     }
                 }
                 if is_basic_digit(pk) {
